@@ -342,6 +342,11 @@ Definition print_range (r : N * N) : string :=
   if N.eqb (fst r) (snd r) then print_N (fst r) else print_N (fst r) ++ String "-" (print_N (snd r)).
 Definition print_cpulist (l : list N) : string := join_with "," (map print_range (ranges l)).
 
+(* the domain of the cpulist round trip: strictly increasing (sorted, duplicate-free) id lists *)
+Fixpoint incr_from (lo : N) (l : list N) : Prop :=
+  match l with [] => True | x :: r => (lo < x)%N /\ incr_from x r end.
+Definition increasing (l : list N) : Prop := match l with [] => True | x :: r => incr_from x r end.
+
 (* parseValueList for *idset.IDSet: split on ",", stop at the first empty item, "a" or "a-b" *)
 Fixpoint n_range (lo : N) (cnt : nat) : list N := match cnt with O => [] | S k => lo :: n_range (lo + 1) k end.
 Definition parse_item (s : string) : option (list N) :=
